@@ -2,6 +2,7 @@
 import functools
 import io
 import itertools
+import json
 import os
 import re
 
@@ -9,6 +10,7 @@ from .. import core
 from ..core import cz, clist, copt, cbool
 from ..runner import Entry, differential
 from . import c20_translate
+from . import c20_seq
 
 PRE = "From EsVerif.Common Require Import Base.\nFrom EsVerif.C20 Require Import Model Model2 Spec Exec.\n"
 
@@ -572,7 +574,298 @@ class PMapExn(Entry):
             len(c["items"]) + 1)
 
 
-ENTRIES = [ISplit(), SplitArray(), QuickSort(), QuickSortKV(), PBar(), FormatInterval(), Nested(), PRange(), PMap(), PMapExn()]
+# ----------------------------------------------------------------------------------------------------
+# histories: several calls in ONE process (state carried across calls), each also made alone in a fresh process
+# ----------------------------------------------------------------------------------------------------
+def _same_ends(r, base, lo=-9, hi=9):
+    """another list of the same length with the same first and last element"""
+    v = [r.randrange(lo, hi) for _ in base]
+    if v:
+        v[0], v[-1] = base[0], base[-1]
+    if v == base and len(v) > 2:
+        v[1] = base[1] + 1
+    return v
+
+
+def _same_minmax(r, base):
+    """same length, same smallest and largest element (what a sorted array has at its two ends), other contents"""
+    if len(base) < 3:
+        return list(base)
+    lo, hi = min(base), max(base)
+    v = [r.randrange(lo, hi + 1) for _ in base]
+    i, j = r.sample(range(len(v)), 2)
+    v[i], v[j] = lo, hi
+    if sorted(v) == sorted(base):
+        v[(set(range(len(v))) - {i, j}).pop()] = lo
+    return v
+
+
+def _cfg_kw(r):
+    return {"simple": r.random() < 0.4, "total": r.choice(["none", "none", "exact", "less", "more", "zero"]),
+            "desc": r.choice(["", "lbl"]), "leave": r.random() < 0.5, "miniters": r.choice([1, 2, 0]), "n_bars": r.choice([20, 3])}
+
+
+def _pm_kw(r, n, exn=False):
+    kw = {"a": r.randrange(-3, 4), "b": r.randrange(-9, 10), "lat": r.randrange(1, 50),
+          "chunksize": r.choice([1, 2, 3, max(n, 1), n + 1]), "nproc": r.choice([1, 2, 3]), "total": r.choice(["given", "absent"])}
+    if exn:
+        kw.update(exn=True, p=r.choice([2, 3, 5]), r=r.randrange(0, 2), q=r.choice([3, 4]), s=r.randrange(0, 3))
+    return kw
+
+
+def h_quicksort(r, kind):
+    n = r.randrange(3, 12)
+    v1 = [r.randrange(0, 5) for _ in range(n)]
+    v2 = _same_ends(r, v1, 0, 5)
+    return [{"op": "set", "obj": "A", "kind": kind, "values": v1}, {"op": "quicksort", "obj": "A"},
+            {"op": "set", "obj": "A", "kind": kind, "values": v2}, {"op": "quicksort", "obj": "A"},      # same object, new contents
+            {"op": "set", "obj": "B", "kind": kind, "values": v2, "fresh": True}, {"op": "quicksort", "obj": "B"},  # other object, equal contents
+            {"op": "quicksort", "obj": "A"},                                                              # already sorted
+            {"op": "set", "obj": "A", "kind": kind, "values": v1[::-1]}, {"op": "quicksort", "obj": "A"},
+            {"op": "set", "obj": "A", "kind": kind, "values": _same_minmax(r, v1)}, {"op": "quicksort", "obj": "A"}]
+
+
+def h_qskv(r, kind):
+    n = r.randrange(3, 10)
+    k1 = [r.randrange(0, 4) for _ in range(n)]
+    k2 = _same_ends(r, k1, 0, 4)
+    v = list(range(100, 100 + n))
+    return [{"op": "set", "obj": "K", "kind": kind, "values": k1}, {"op": "set", "obj": "V", "kind": kind, "values": v},
+            {"op": "quicksort_keyvalue", "keys": "K", "vals": "V"},
+            {"op": "set", "obj": "K", "kind": kind, "values": k2}, {"op": "quicksort_keyvalue", "keys": "K", "vals": "V"},
+            {"op": "set", "obj": "K", "kind": kind, "values": k1}, {"op": "set", "obj": "V", "kind": kind, "values": v},
+            {"op": "quicksort_keyvalue", "keys": "K", "vals": "V"},
+            {"op": "set", "obj": "K2", "kind": kind, "values": k2, "fresh": True},
+            {"op": "set", "obj": "V2", "kind": kind, "values": v[::-1], "fresh": True},
+            {"op": "quicksort_keyvalue", "keys": "K2", "vals": "V2"},
+            {"op": "set", "obj": "K", "kind": kind, "values": _same_minmax(r, k1)}, {"op": "set", "obj": "V", "kind": kind, "values": v},
+            {"op": "quicksort_keyvalue", "keys": "K", "vals": "V"}]
+
+
+def h_isplit(r):
+    num, n = r.choice([r.randrange(0, 30), r.randrange(30, 200)]), r.randrange(1, 9)
+    t = r.choice(["int64", "int32", "uint8"])
+    return [{"op": "isplit", "num": num, "nchunks": n, "scribble": True}, {"op": "isplit", "num": num, "nchunks": n},
+            {"op": "isplit", "num": num, "nchunks": n, "numtype": t, "scribble": True},
+            {"op": "isplit", "num": num, "nchunks": n, "nchtype": "int64"},
+            {"op": "isplit", "num": num + 1, "nchunks": n, "scribble": True}, {"op": "isplit", "num": num, "nchunks": n + 1},
+            {"op": "isplit", "num": n, "nchunks": max(num, 1)}, {"op": "isplit", "num": num, "nchunks": n},
+            {"op": "isplit", "num": 0, "nchunks": n, "scribble": True}, {"op": "isplit", "num": 0, "nchunks": n, "numtype": t}]
+
+
+def h_splitarray(r, kind):
+    n = r.randrange(2, 14)
+    v1 = [r.randrange(-9, 9) for _ in range(n)]
+    v2 = _same_ends(r, v1)
+    nper = r.randrange(1, n + 2)
+    return [{"op": "set", "obj": "A", "kind": kind, "values": v1}, {"op": "splitarray", "obj": "A", "nper": nper, "scribble": True},
+            {"op": "set", "obj": "A", "kind": kind, "values": v2}, {"op": "splitarray", "obj": "A", "nper": nper},
+            {"op": "splitarray", "obj": "A", "nper": nper + 1, "scribble": True},
+            {"op": "splitarray", "obj": "A", "nper": nper, "npertype": "int64"},
+            {"op": "set", "obj": "B", "kind": kind, "values": v2, "fresh": True}, {"op": "splitarray", "obj": "B", "nper": nper},
+            {"op": "set", "obj": "A", "kind": kind, "values": v1 + [7, 7, 7]}, {"op": "splitarray", "obj": "A", "nper": nper},
+            {"op": "splitarray", "obj": "A", "nper": len(v1) + 3}]
+
+
+def h_pbar(r):
+    n = r.randrange(3, 9)
+    v1 = [10 + 3 * i for i in range(n)]
+    v2 = _same_ends(r, v1, 0, 99)
+    c1, c2 = _cfg_kw(r), _cfg_kw(r)
+    c2["simple"] = not c1["simple"]
+    c3 = dict(c1, total="exact")
+    return [{"op": "set", "obj": "L", "kind": "clist", "values": v1}, {"op": "pbar", "obj": "L", "kw": c1, "keep": "W"},
+            {"op": "pbar_again", "gen": "W"},
+            {"op": "set", "obj": "L", "kind": "clist", "values": v2}, {"op": "pbar", "obj": "L", "kw": c1},
+            {"op": "pbar", "obj": "L", "kw": c2}, {"op": "pbar", "obj": "L", "kw": c1, "kind": "gen"},
+            {"op": "set", "obj": "L", "kind": "clist", "values": v2 + [1, 2, 3, 4]}, {"op": "pbar", "obj": "L", "kw": c3},
+            {"op": "pbar", "obj": "L", "kw": dict(c1, total="none")}, {"op": "pbar", "obj": "L", "kw": dict(c2, total="none")},
+            {"op": "set", "obj": "L", "kind": "clist", "values": v2[:2]}, {"op": "pbar", "obj": "L", "kw": dict(c2, total="none")},
+            {"op": "set", "obj": "L", "kind": "clist", "values": v2 + [1, 2, 3, 4]},
+            {"op": "set", "obj": "Q", "kind": "list", "values": v2[::-1]},
+            {"op": "set", "obj": "M", "kind": "clist", "values": v1[:3]},
+            {"op": "pbar_resume", "obj": "L", "kw": c3, "take": r.randrange(1, 4),
+             "meanwhile": [{"op": "quicksort", "obj": "Q"}, {"op": "pbar", "obj": "M", "kw": c2},
+                           {"op": "isplit", "num": n, "nchunks": 2, "scribble": True}]},
+            {"op": "pbar", "obj": "L", "kw": c2}]
+
+
+def h_interleave(r):
+    n = r.randrange(2, 8)
+    a = [r.randrange(0, 50) for _ in range(n)]
+    b = _same_ends(r, a, 50, 99)
+    ca, cb = _cfg_kw(r), _cfg_kw(r)
+    return [{"op": "set", "obj": "A", "kind": "clist", "values": a}, {"op": "set", "obj": "B", "kind": "clist", "values": b},
+            {"op": "interleave", "a": "A", "b": "B", "kwa": ca, "kwb": cb},
+            {"op": "interleave", "a": "A", "b": "B", "kwa": ca, "kwb": ca, "kindb": "gen"},
+            {"op": "set", "obj": "B", "kind": "clist", "values": b + [5, 6]},
+            {"op": "interleave", "a": "B", "b": "A", "kwa": cb, "kwb": dict(cb, simple=not cb["simple"])},
+            {"op": "set", "obj": "A2", "kind": "clist", "values": a, "fresh": True},      # another object, equal contents
+            {"op": "interleave", "a": "A", "b": "A2", "kwa": ca, "kwb": cb}]
+
+
+def h_prange(r):
+    start, step, k = r.randrange(-5, 6), r.choice([1, 2, 3, -1, -2]), r.randrange(0, 8)
+    a1 = [start, start + step * k, step]
+    a2 = [start + 1, start + 1 + step * k, step]            # same length, other values
+    c1 = _cfg_kw(r)
+    return [{"op": "prange", "args": a1, "kw": c1, "keep": "R"}, {"op": "prange_again", "gen": "R"},
+            {"op": "prange", "args": a2, "kw": c1}, {"op": "prange", "args": a1, "kw": dict(c1, simple=not c1["simple"])},
+            {"op": "prange", "args": [abs(k)], "kw": c1}, {"op": "prange", "args": a1[:2], "kw": c1},
+            {"op": "prange", "args": [1, 5, 0], "kw": c1}, {"op": "prange", "args": a1, "kw": c1}]
+
+
+def h_pmap(r):
+    n = r.randrange(3, 9)
+    v1 = [r.randrange(-9, 9) for _ in range(n)]
+    v2 = _same_ends(r, v1)
+    f1, f2 = _pm_kw(r, n), _pm_kw(r, n)
+    f2["chunksize"], f2["nproc"] = f1["chunksize"], f1["nproc"]
+    return [{"op": "set", "obj": "P", "kind": "list", "values": v1}, {"op": "pmap", "obj": "P", "kw": f1},
+            {"op": "set", "obj": "P", "kind": "list", "values": v2}, {"op": "pmap", "obj": "P", "kw": f1},     # same object, modified
+            {"op": "pmap", "obj": "P", "kw": f2},                                                         # same items, other function
+            {"op": "pmap", "obj": "P", "kw": _pm_kw(r, n, exn=True)},                                     # a call that raises ...
+            {"op": "pmap", "obj": "P", "kw": dict(f1, chunksize=n + 1, nproc=1)},                         # ... and the next one
+            {"op": "set", "obj": "P2", "kind": "list", "values": v2, "fresh": True}, {"op": "pmap", "obj": "P2", "kw": f1}]
+
+
+def h_mixed(r):
+    hs = [h_quicksort(r, "list"), h_isplit(r), h_splitarray(r, "ndarray"), h_interleave(r), h_prange(r)]
+    for j, h in enumerate(hs):           # every sub-history keeps its own objects
+        for st in h:
+            for key in ("obj", "a", "b", "keys", "vals", "keep", "gen"):
+                if key in st:
+                    st[key] = "%s%d" % (st[key], j)
+    steps, k = [], 0
+    while any(hs):
+        h = hs[k % len(hs)]
+        k += 1
+        take = r.randrange(1, 4)
+        # keep a `set` together with the call that follows it
+        while h and take > 0:
+            st = h.pop(0)
+            steps.append(st)
+            if st["op"] != "set":
+                take -= 1
+    return steps
+
+
+def histories(ctx, round):
+    r = ctx.rng
+    hs = []
+    if round == 0:
+        hs += [("quicksort/list", h_quicksort(r, "list")), ("quicksort/ndarray", h_quicksort(r, "ndarray")),
+               ("quicksort_keyvalue/list", h_qskv(r, "list")), ("quicksort_keyvalue/ndarray", h_qskv(r, "ndarray")),
+               ("isplit", h_isplit(r)), ("isplit", h_isplit(r)),
+               ("splitarray/ndarray", h_splitarray(r, "ndarray")), ("splitarray/list", h_splitarray(r, "list")),
+               ("pbar", h_pbar(r)), ("pbar", h_pbar(r)), ("pbar", h_pbar(r)), ("interleave", h_interleave(r)),
+               ("interleave", h_interleave(r)), ("prange", h_prange(r)), ("prange", h_prange(r)),
+               ("pmap", h_pmap(r)), ("pmap", h_pmap(r)), ("mixed", h_mixed(r)), ("mixed", h_mixed(r))]
+    mk = [("quicksort/list", lambda: h_quicksort(r, "list")), ("quicksort/ndarray", lambda: h_quicksort(r, "ndarray")),
+          ("quicksort_keyvalue/list", lambda: h_qskv(r, "list")), ("isplit", lambda: h_isplit(r)),
+          ("splitarray/ndarray", lambda: h_splitarray(r, "ndarray")), ("splitarray/list", lambda: h_splitarray(r, "list")),
+          ("pbar", lambda: h_pbar(r)), ("interleave", lambda: h_interleave(r)), ("prange", lambda: h_prange(r)),
+          ("mixed", lambda: h_mixed(r))]
+    for k in range(ctx.n(12, 150)):
+        name, f = mk[k % len(mk)]
+        hs.append((name, f()))
+    for _ in range(ctx.n(0, 10)):
+        hs.append(("pmap", h_pmap(r)))
+    return [{"steps": st, "family": "history/" + name} for name, st in hs]
+
+
+_FRESH = []
+
+
+def _fresh():
+    if not _FRESH:
+        import atexit
+        _FRESH.append(c20_seq.Fresh(core.VERIF))
+        atexit.register(_FRESH[0].close)
+    return _FRESH[0]
+
+
+def _cout(o):
+    return "(%s, %s)" % (cpairs(o["yielded"]), "None" if o["end"] is None else "Some " + o["end"])
+
+
+def _ccfg(i):
+    return "{| simple := %s; has_len := %s; total := %s |}" % (cbool(i.get("simple", False)), cbool(i.get("kind") != "gen"),
+                                                             copt(i.get("total")))
+
+
+def _lists(l):
+    return "[" + "; ".join(clist(x) for x in l) + "]"
+
+
+def step_term(rec):
+    """the verdict term of one call of a history (the same verdict functions as the single-call entries)"""
+    op, i, o = rec["op"], rec["in"], rec["out"]
+    if op == "quicksort":
+        return "v_quicksort %s %s" % (clist(i["data"]), cres(o, clist))
+    if op == "quicksort_keyvalue":
+        return "v_quicksort_kv %s %s" % (cpairs(zip(i["k"], i["v"])), cres(o, cpairs))
+    if op == "isplit":
+        return "v_isplit %s %s %s" % (cz(i["num"]), cz(i["nchunks"]), cres(o, cpairs))
+    if op == "splitarray":
+        return "v_splitarray %s %s %s" % (cz(i["nper"]), clist(i["var"]), cres(o, _lists))
+    if op == "pbar":
+        return "v_pbar %s %s %s" % (_ccfg(i), clist(i["items"]), _cout(o))
+    if op in ("pbar_again", "prange_again"):
+        return "v_exhausted %s" % _cout(o)
+    if op == "pbar_resume":
+        first, rest = o["first"], o["rest"]
+        whole = first if first["end"] is not None else {"yielded": first["yielded"] + rest["yielded"], "end": rest["end"]}
+        return "v_pbar %s %s %s" % (_ccfg(i), clist(i["items"]), _cout(whole))
+    if op == "interleave":
+        return "vjoin [v_pbar %s %s %s; v_pbar %s %s %s]" % (_ccfg(i["a"]), clist(i["a"]["items"]), _cout(o["a"]),
+                                                            _ccfg(i["b"]), clist(i["b"]["items"]), _cout(o["b"]))
+    if op == "prange":
+        try:
+            it = "(Some %s)" % clist(list(range(*i["args"])))
+        except Exception:  # noqa
+            it = "None"
+        return "v_prange %s %s %s %s" % (_ccfg(dict(i, kind="list")), clist(i["args"]), it, _cout(o))
+    if op == "pmap":
+        if i.get("exn"):
+            end = "None" if o[0] == "ok" else "(Some %s)" % o[1]
+            return "v_pmap_exn %s %s %s %s %s %s %s %s %s %s (-1)%%Z %s" % (
+                cz(i["a"]), cz(i["b"]), cz(i["p"]), cz(i["r"]), cz(i["q"]), cz(i["s"]), clist(i["items"]), cz(i["chunksize"]),
+                end, clist(o[1] if o[0] == "ok" else []), cz(len(i["items"])))
+        return "v_pmap %s %s %s %s %s" % (cz(i["a"]), cz(i["b"]), clist(i["items"]), cz(i["chunksize"]), cres(o, clist))
+    raise ValueError(op)
+
+
+class Sequence(Entry):
+    """histories over every entry point; every call judged by the model and the verified checker AND compared with the same
+    call made alone in a fresh process"""
+    name = "sequence"
+
+    def cases(self, ctx, round=0):
+        return histories(ctx, round)
+
+    def impl(self, c):
+        recs = c20_seq.run_history(json.loads(json.dumps(c["steps"])))
+        fr = _fresh()
+        for rec in recs:
+            rec["alone"] = fr.call(rec["op"], rec["in"])
+            rec["same_as_alone"] = c20_seq.canon(rec["alone"]) == c20_seq.canon(json.loads(json.dumps(rec["out"])))
+            if rec["same_as_alone"]:
+                del rec["alone"]
+        return recs
+
+    def term(self, c, out):
+        return "vjoin [%s]" % "; ".join("v_hist (%s) %s" % (step_term(rec), cbool(rec["same_as_alone"])) for rec in out)
+
+    def nontrivial(self, c, out):
+        return len(out) >= 3
+
+    def classify(self, c, out, v):
+        return None
+
+
+ENTRIES = [ISplit(), SplitArray(), QuickSort(), QuickSortKV(), PBar(), FormatInterval(), Nested(), PRange(), PMap(), PMapExn(),
+           Sequence()]
 
 TRUSTED = [
     "Coq 8.16.1 kernel (coqc, vm_compute; no native_compute); all C20 theorems are closed under the global context (no axioms)",
